@@ -15,29 +15,18 @@
 (***************************************************************************)
 EXTENDS Integers, Sequences, FiniteSets, TLC, Json
 
-\* fields of the params object per method: <<name, kind>>, kind in num / hex / addr / str / bool / obj
-Methods == <<
-  [m |-> "chain_getLastBlock", f |-> <<>>],
-  [m |-> "chain_getGetBlockByID", f |-> << <<"id", "hex">> >>],
-  [m |-> "chain_getBlockByHeight", f |-> << <<"height", "num">> >>],
-  [m |-> "chain_getTransactionByID", f |-> << <<"id", "hex">> >>],
-  [m |-> "chain_postBlock", f |-> << <<"block", "obj">> >>],
-  [m |-> "system_getNodeInfo", f |-> <<>>],
-  [m |-> "network_getConnectedPeers", f |-> <<>>],
-  [m |-> "generator_getStatus", f |-> <<>>],
-  [m |-> "generator_getAllKeys", f |-> <<>>],
-  [m |-> "generator_hasKeys", f |-> << <<"address", "addr">> >>],
-  [m |-> "generator_setKeys", f |-> << <<"address", "addr">>, <<"type", "str">>, <<"data", "obj">> >>],
-  [m |-> "generator_setStatus", f |-> << <<"address", "addr">>, <<"height", "num">>, <<"maxHeightPreviouslyForged", "num">>, <<"maxHeightPrevoted", "num">> >>],
-  [m |-> "generator_updateStatus", f |-> << <<"generatorAddress", "addr">>, <<"password", "str">>, <<"enable", "bool">>, <<"height", "num">>,
-                                           <<"maxHeightGenerated", "num">>, <<"maxHeightPrevoted", "num">> >>],
-  [m |-> "generator_estimateSafeStatus", f |-> << <<"timeShutdown", "num">> >>],
-  \* not an engine namespace: handed to the application (labi Query)
-  [m |-> "token_getBalance", f |-> << <<"address", "addr">> >>],
-  \* names the router has to refuse
-  [m |-> "chain_noSuchMethod", f |-> <<>>], [m |-> "nounderscore", f |-> <<>>], [m |-> "", f |-> <<>>], [m |-> "_", f |-> <<>>],
-  [m |-> "chain_", f |-> <<>>], [m |-> "_getLastBlock", f |-> <<>>], [m |-> "chain_get_Last_Block", f |-> <<>>]
->>
+CONSTANT BasesFile    \* JSON written by `c09 bases`; member "methods": <<[m |-> "chain_getLastBlock", f |-> << <<"height", "num">>, ... >>], ...>>
+
+\* The methods are READ FROM THE NODE, not listed here: `c09 bases` registers on a real router what Engine.Start registers
+\* and writes the registered names (namespace_method) with the fields of the params object (<<name, kind>>, kind in num / hex /
+\* addr / str / bool / obj) for the methods whose request type the harness can fill with valid values; an endpoint a developer
+\* adds appears here with no fields (whole-params shapes only) until the harness learns its request type.  The last entry is
+\* the application namespace (not-found handler -> labi Query).
+Registered == JsonDeserialize(BasesFile).methods
+\* names the router has to refuse
+BadNames == << [m |-> "chain_noSuchMethod", f |-> <<>>], [m |-> "nounderscore", f |-> <<>>], [m |-> "", f |-> <<>>], [m |-> "_", f |-> <<>>],
+              [m |-> "chain_", f |-> <<>>], [m |-> "_getLastBlock", f |-> <<>>], [m |-> "chain_get_Last_Block", f |-> <<>>] >>
+Methods == Registered \o BadNames
 
 Transports == {"invoke", "http", "ws"}
 \* the params value as a whole
@@ -51,6 +40,34 @@ EnvelopeShapes == {"ok", "no-method", "method-number", "method-null", "no-jsonrp
 WsControl == {"subscribe", "unsubscribe"}
 TopicShapes == {"valid", "unknown-topic", "missing", "null", "number", "empty-list", "list-of-numbers", "repeated"}
 
+(* ---- sequences and server push (tag RQ): the state a first request leaves behind meets a second one ---- *)
+\* keys <<transport, "keys", key type (plain | encrypted), KDF shape, cipher shape, follow-up>>: generator_setKeys, then the
+\* follow-up request that reads what was stored.  Exactly one of the two shapes deviates (or none).
+KdfShapes == {"valid", "parallelism-0", "iterations-0", "memory-0", "memory-max", "iterations-max", "salt-empty", "salt-long", "kdfparams-null",
+              "kdf-unknown", "numbers-as-strings"}
+CipherShapes == {"valid", "iv-empty", "iv-1", "iv-11", "iv-13", "iv-16", "tag-empty", "tag-15", "tag-17", "text-empty", "cipherparams-null",
+                 "cipher-unknown", "mac-empty", "version-2"}
+FollowUps == {"updateStatus-password", "updateStatus-wrong-password", "updateStatus-enable", "getAllKeys", "hasKeys", "getStatus"}
+KeyCases == {<<t, "keys", "plain", "valid", "valid", fo>> : t \in Transports, fo \in FollowUps}
+            \cup {<<t, "keys", "encrypted", k, "valid", fo>> : t \in Transports, k \in KdfShapes, fo \in {"updateStatus-password", "getAllKeys"}}
+            \cup {<<t, "keys", "encrypted", "valid", c, fo>> : t \in Transports, c \in CipherShapes, fo \in {"updateStatus-password", "getAllKeys"}}
+            \cup {<<t, "keys", "encrypted", "valid", "valid", fo>> : t \in Transports, fo \in FollowUps}
+\* postblock <<transport, "postblock", shape of the JSON block, follow-up>>: chain_postBlock hands the block to the consensus
+\* loop (a goroutine of the node: the router's recover() does not cover it); then the block is asked for by its id.
+BlockShapes == {"valid", "no-aggregateCommit", "aggregateCommit-null", "aggregateCommit-empty", "no-signature", "no-previousBlockID",
+                "no-generatorAddress", "empty-header", "header-null", "transactions-null", "transactions-null-element", "assets-null",
+                "assets-null-element", "height-max", "version-0", "stale-parent"}
+PostCases == {<<t, "postblock", b, "getBlockByID">> : t \in Transports, b \in BlockShapes}
+\* status <<transport, "status", shape, follow-up>>: generator_setStatus then generator_getStatus / updateStatus
+StatusCases == {<<t, "status", sh, fo>> : t \in Transports, sh \in {"valid", "height-max", "address-empty", "address-long"}, fo \in {"getStatus", "updateStatus-enable"}}
+\* push <<"ws", "push", client (live | closed | non-reading | half-open), topics of the subscription>>: after the subscription the
+\* node publishes events; Publish has a deadline, a live client receives them, clients that went away or stopped reading do not
+\* hold the node back, and the server can be closed.
+Clients == {"live", "closed", "non-reading", "closed-before-answer"}
+PushTopics == {"valid", "repeated", "many", "prefix-of-everything"}
+PushCases == {<<"ws", "push", c, tp>> : c \in Clients, tp \in PushTopics}
+SeqCases == KeyCases \cup PostCases \cup StatusCases \cup PushCases
+
 VARIABLE x
 Cases ==
   {<<t, "ok", i, s, 0>> : t \in Transports, i \in 1..Len(Methods), s \in WholeShapes}
@@ -61,7 +78,8 @@ Cases ==
   \cup {<<"ws", "subscribe-then-unsubscribe", 0, s, 0>> : s \in TopicShapes}
 WellFormed(c) == c[5] = 0 \/ (c[3] >= 1 /\ c[5] <= Len(Methods[c[3]].f))
 
-Init == x \in {c \in Cases : WellFormed(c)}
+Init == x \in {c \in Cases : WellFormed(c)} \cup SeqCases
+IsSeq(c) == c[2] \in {"keys", "postblock", "status", "push"}
 Next == UNCHANGED x
 Spec == Init /\ [][Next]_x
 
@@ -69,6 +87,7 @@ Spec == Init /\ [][Next]_x
 Outcome(c) == "answers"
 Total ==
   /\ Outcome(x) = "answers"
-  /\ PrintT(<<"RP", ToJson([tr |-> x[1], e |-> x[2], m |-> (IF x[3] = 0 THEN "" ELSE Methods[x[3]].m), s |-> x[4],
+  /\ IF IsSeq(x) THEN PrintT(<<"RQ", ToJson([tr |-> x[1], q |-> x[2], a |-> x[3], b |-> x[4], c |-> (IF Len(x) >= 5 THEN x[5] ELSE ""), d |-> (IF Len(x) >= 6 THEN x[6] ELSE "")])>>)
+     ELSE PrintT(<<"RP", ToJson([tr |-> x[1], e |-> x[2], m |-> (IF x[3] = 0 THEN "" ELSE Methods[x[3]].m), s |-> x[4],
                             f |-> (IF x[5] = 0 THEN "" ELSE Methods[x[3]].f[x[5]][1]), k |-> (IF x[5] = 0 THEN "" ELSE Methods[x[3]].f[x[5]][2])])>>)
 =============================================================================
